@@ -82,6 +82,12 @@ def sf_gen_item(ex, st, tk, j):
 
 
 def sf_prefix_of(ex, st, a, b):
+    """a is a prefix of b.  When ASSUMED, the element-wise consequence is instantiated for the solver (DESIGN 3.2: spec
+    functions are unfolded by the VC generator); when it is a GOAL only the primitive is used."""
+    if getattr(ex, "assuming", False):
+        j = z3.Int("pf!q")
+        return z3.And(z3.PrefixOf(a, b), z3.Length(a) <= z3.Length(b),
+                      z3.ForAll([j], z3.Implies(z3.And(j >= 0, j < z3.Length(a)), b[j] == a[j])))
     return z3.PrefixOf(a, b)
 
 
@@ -89,6 +95,37 @@ def sf_tok_type(ex, st, name):
     return z3.IntVal(ex.token_enum[z3.simplify(lift(name)).as_string()])
 
 
-SPEC_FUNCS = {"layout": sf_layout, "cache_wf": sf_cache_wf, "truthy": sf_truthy, "is_none": sf_is_none, "pos_le": sf_pos_le,
+def sf_em_cached(ex, st, tk):
+    t = tk.fields["_tokens"]
+    n = z3.Length(t)
+    return z3.And(n > 0, Tok.type(t[n - 1]) == ex.token_enum["ENDMARKER"])
+
+
+def sf_tk_ok(ex, st, tk):
+    """class invariant of Tokenizer (A.2 of DESIGN): index within the cache; generator position within its stream; the
+    stream ends with its only ENDMARKER; pushed-back tokens are never blank; with-macro mode implies a cached token;
+    every cached or pushed-back token cost at least one raw token; once the stream is exhausted the ENDMARKER is the last cached token or is
+    among the pushed-back tokens"""
+    f = tk.fields
+    j = z3.Int("sk!q")
+    op, em = ex.token_enum["OP"], ex.token_enum["ENDMARKER"]
+    stk = f["_stack"]
+    g = f["_tokengen"]
+    return z3.And(sf_cache_wf(ex, st, tk), sf_endmarker_last(ex, st, tk), g.pos >= 0, g.pos <= z3.Length(g.items),
+                  z3.ForAll([j], z3.Implies(z3.And(j >= 0, j < z3.Length(stk)), z3.Or(Tok.type(stk[j]) == op, Tok.type(stk[j]) == em))),
+                  z3.Or(z3.Not(f["_with_macro"]), z3.Length(f["_tokens"]) > 0),
+                  z3.Length(f["_tokens"]) + z3.Length(stk) <= g.pos,
+                  z3.Implies(g.pos >= z3.Length(g.items),
+                             z3.Or(sf_em_cached(ex, st, tk),
+                                   z3.Exists([j], z3.And(j >= 0, j < z3.Length(stk), Tok.type(stk[j]) == em)))))
+
+
+def sf_can_peek(ex, st, tk):
+    """the cursor is not past the ENDMARKER (E2: never_past_end for the generated methods)"""
+    f = tk.fields
+    return z3.Or(f["_index"] < z3.Length(f["_tokens"]), z3.Not(sf_em_cached(ex, st, tk)))
+
+
+SPEC_FUNCS = {"em_cached": sf_em_cached, "tk_ok": sf_tk_ok, "can_peek": sf_can_peek, "layout": sf_layout, "cache_wf": sf_cache_wf, "truthy": sf_truthy, "is_none": sf_is_none, "pos_le": sf_pos_le,
               "endmarker_last": sf_endmarker_last, "endmarker_pulled": sf_endmarker_pulled, "gen_pos": sf_gen_pos,
               "gen_len": sf_gen_len, "gen_item": sf_gen_item, "prefix_of": sf_prefix_of, "tok_type": sf_tok_type}
